@@ -360,15 +360,17 @@ theorem C02_stale_catchup_lost_delete_counterexample :
 /-- **C02_bookkeeping_refines.**  `stepD` / `runD` is the state machine in which every
 `advance_deletes` of `commit`, `merge` and `end_merge` has its bookkeeping (the early return when
 the entry's `delete_opstamp` is the target; a new `delete_opstamp` only when more documents are
-deleted than recorded; metas kept by segment id, the merged entry new).  For EVERY event sequence
-as in `C02_commit_refines_replay_partial` in which the stamper never goes back (no
-`delete_all_documents`, no `rollback`; any merges, workers, commits) every run of that machine is,
-state by state, the run of the core machine - the early return only ever fires for a merge of
-committed segments at the last commit, where the core is the identity - and so publishes exactly
-the sequential replay.  With `delete_all_documents` this is false: `C02_bookkeeping_counterexample`;
-`rollback` (the stamper restarts AT `meta.opstamp`) is open. -/
+deleted than recorded; metas kept by segment id, the merged entry new, a re-created writer starts
+from the metas of `meta.json`).  For EVERY event sequence as in `C02_commit_refines_replay_partial`
+(any merges, workers, commits, rollbacks / reopen) in which the stamper never goes below
+`meta.opstamp` (`bookRun`: `delete_all_documents` only while `committed_opstamp`, which a commit
+leaves stale, is not below it - i.e. on a writer that has not committed since it was created)
+every run of that machine is, state by state, the run of the core machine - the early return only
+ever fires where the core is the identity (a merge of committed segments at the last commit, or an
+empty delete queue right after reopen) - and so publishes exactly the sequential replay.  Without
+the hypothesis on `delete_all_documents` this is false: `C02_bookkeeping_counterexample`. -/
 theorem C02_bookkeeping_refines [DecidableEq α] (n : Nat) (es : List (Event α)) (sD : WState α) (B : Book)
-    (hok : okRun2 (WState.init n) es) (hk : es.all bookOk = true)
+    (hok : okRun2 (WState.init n) es) (hk : bookRun (WState.init n) es)
     (hrun : runD (WState.init n, Book.init) es = some (sD, B)) :
     run (WState.init n) es = some sD
       ∧ List.Perm (published sD) (replay (history es)).committed
@@ -376,13 +378,29 @@ theorem C02_bookkeeping_refines [DecidableEq α] (n : Nat) (es : List (Event α)
   have h := runD_run (WState.init n) Book.init SpecState.init es (sD, B) (inv_init n) (minv_init n) (binv_init n) hok hk hrun
   exact ⟨h, C02_commit_refines_replay_partial n es sD h hok⟩
 
+/-- in particular for every history without `delete_all_documents` -/
+theorem C02_bookkeeping_refines_history [DecidableEq α] (n : Nat) (es : List (Event α)) (sD : WState α) (B : Book)
+    (hh : okHist HFlags.init (history es)) (hk : es.all bookOk = true)
+    (hrun : runD (WState.init n, Book.init) es = some (sD, B)) :
+    List.Perm (published sD) (replay (history es)).committed := by
+  have hns : es.all (fun e => !isSubstep e) = true := by
+    rw [List.all_eq_true] at hk ⊢
+    intro e he
+    have := hk e he
+    cases e <;> first | rfl | simp [bookOk] at this
+  exact (C02_bookkeeping_refines n es sD B
+    (okRun2_of_okHist (WState.init n) SpecState.init HFlags.init es (inv_init n) (minv_init n) (flag_init n) hh hns)
+    (bookRun_of_all _ es hk) hrun).2.1
+
 /-- not vacuous, and the early return is exercised: the first commit (4) records
 `delete_opstamp = 4` for segment 0, the merge of the committed segments (target 4) takes the early
-return for it, the last commit (6) writes the delete of document 2 into the merged segment -/
+return for it, the commit (6) writes the delete of document 2 into the merged segment; after the
+rollback the re-created writer starts from these metas -/
 example :
     let es : List (Event Nat) :=
       [.add 1, .add 3, .recv 0, .recv 0, .cut 0, .register, .add 2, .recv 0, .cut 0, .register,
-       .del (fun d => d == 1), .commit none, .mergeStart [0, 1] true, .del (fun d => d == 2), .mergeEnd 0, .commit none]
+       .del (fun d => d == 1), .commit none, .mergeStart [0, 1] true, .del (fun d => d == 2), .mergeEnd 0, .commit none,
+       .add 4, .rollback, .commit none]
     es.all bookOk = true
       ∧ (runD (WState.init 1, Book.init) es).map (fun p => (published p.1, p.2.delOp 0, p.2.delOp 2))
           = some ([3], some 4, some 6) := by
